@@ -421,6 +421,9 @@ class _AdversarialFairness(BaseEstimator):
             Array-like containing the sensitive features of the
             training data.
         """
+        if not self.warm_start and hasattr(self, "classes_"):
+            # without warm_start, fit() discards what earlier calls learned
+            del self.classes_
         first_call = not hasattr(self, "classes_")
 
         X, y, A = self._validate_input(X, y, sensitive_features, first_call)
